@@ -193,18 +193,15 @@ template <typename MA>
     MA const& ca     = a;
     o.rank           = MA::rank();
     o.rank_dynamic   = MA::rank_dynamic();
-    o.phase          = "extent(r)";
     for (std::size_t r = 0; r < R; ++r) {
         o.st[r]   = MA::static_extent(r);
         o.ext[r]  = static_cast<ll>(ca.extent(r));
         o.ext2[r] = static_cast<ll>(ca.extents().extent(r));
     }
-    o.phase          = "size()";
     o.size           = static_cast<ll>(ca.size());
     o.empty          = ca.empty();
-    o.phase          = "container_size()";
     o.container_size = static_cast<ll>(ca.container_size());
-    o.phase          = "mapping().required_span_size()";
+    o.phase          = "mapping()";
     o.map_span       = static_cast<ll>(ca.mapping().required_span_size());
     int* const base  = a.container_data();
     int const* cbase = ca.container_data();
@@ -265,11 +262,11 @@ template <typename MA>
         o.has_stride = true;
         for (std::size_t r = 0; r < R; ++r) { o.stride[r] = static_cast<ll>(ca.stride(r)); }
     }
-    o.phase         = "is_*()";
+    o.phase         = "is_unique()/is_exhaustive()/is_strided()";
     o.is_unique     = ca.is_unique() && MA::is_always_unique();
     o.is_exhaustive = ca.is_exhaustive() && MA::is_always_exhaustive();
     o.is_strided    = ca.is_strided() && MA::is_always_strided();
-    o.phase         = "done";
+    o.phase         = "construction";
 }
 
 struct Expect {
@@ -282,17 +279,19 @@ struct Expect {
 void verify_ma(Ctx& c, MaObs const& o, Indices const& ix, Expect const& x, TypeInfo const& ti)
 {
     std::size_t const R = x.ext.size();
-    c.eq("rank()", o.rank, R);
-    c.eq("rank_dynamic()", o.rank_dynamic, ti.rank_dynamic);
-    c.eq("static_extent(r)", show_statics(std::vector<std::size_t>(o.st, o.st + R)), show_statics(ti.statics()));
-    c.eq("extent(r) for all r", show(std::vector<ll>(o.ext, o.ext + R)), show(x.ext));
-    c.eq("extents().extent(r) for all r", show(std::vector<ll>(o.ext2, o.ext2 + R)), show(x.ext));
-    c.eq("size()", o.size, product(x.ext));
-    c.eq("empty()", o.empty, int(product(x.ext) == 0));
-    c.eq("mapping().required_span_size()", o.map_span, x.span);
-    c.eq("container_size()", o.container_size, x.container_size);
-    if (o.fill_checked) { c.eq("every element holds the fill value", o.fill_ok, true); }
-    c.eq("to_mdspan()/conversion: same extents and data_handle() == container_data()", o.view_ext_ok, 1);
+    // the constructor decides extents and container; everything else follows from them
+    bool ok = c.eq("extent(r) for all r", show(std::vector<ll>(o.ext, o.ext + R)), show(x.ext));
+    ok      = c.eq("extents().extent(r) for all r", show(std::vector<ll>(o.ext2, o.ext2 + R)), show(x.ext)) && ok;
+    ok      = c.eq("container_size()", o.container_size, x.container_size) && ok;
+    if (o.fill_checked) { ok = c.eq("every element holds the fill value", o.fill_ok, true) && ok; }
+    if (!ok) { return; }
+    c.eq_o("rank()", o.rank, R);
+    c.eq_o("rank_dynamic()", o.rank_dynamic, ti.rank_dynamic);
+    c.eq_o("static_extent(r)", show_statics(std::vector<std::size_t>(o.st, o.st + R)), show_statics(ti.statics()));
+    c.eq_o("size()", o.size, product(x.ext));
+    c.eq_o("empty()", o.empty, int(product(x.ext) == 0));
+    c.eq_o("mapping()", cat("required_span_size ", o.map_span), cat("required_span_size ", x.span));
+    c.eq_o("to_mdspan()", cat("same extents and data_handle() == container_data(): ", o.view_ext_ok), cat("same extents and data_handle() == container_data(): ", 1));
     for (int f = 0; f < o.forms; ++f) {
         bool reported = false;
         std::vector<unsigned char> hit(static_cast<std::size_t>(x.span), 0);
@@ -304,28 +303,27 @@ void verify_ma(Ctx& c, MaObs const& o, Indices const& ix, Expect const& x, TypeI
             bool const inside = got >= 0 && got < x.span;
             if ((got != ref || !inside) && !reported) {
                 std::vector<ll> const idx(ix.flat.begin() + static_cast<std::ptrdiff_t>(k * R), ix.flat.begin() + static_cast<std::ptrdiff_t>((k + 1) * R));
-                c.r.violation("C19", c.subject, c.cls, c.kase,
-                    cat(form_name[f], " at ", show(idx), ": element offset tetl=", got, " reference=", ref, inside ? " (inside" : " (OUTSIDE", " the ", x.span, " required elements)"));
+                c.fail_o(form_name[f], cat("index ", show(idx), ": element offset tetl=", got, " reference=", ref, inside ? " (inside" : " (OUTSIDE", " the ", x.span, " required elements)"));
                 reported = true;
             }
             if (inside && hit[static_cast<std::size_t>(got)]++ && !reported) {
-                c.r.violation("C19", c.subject, c.cls, c.kase, cat(form_name[f], ": two indices refer to the same element (offset ", got, ")"));
+                c.fail_o(form_name[f], cat("two indices refer to the same element (offset ", got, ")"));
                 reported = true;
             }
             if (f == 0 && k < o.readback.size()) {
                 ++c.evals;
                 if (o.readback[k] != ref && !reported) {
-                    c.r.violation("C19", c.subject, c.cls, c.kase, cat("value written through operator() found at container slot ", o.readback[k], ", reference ", ref));
+                    c.fail_o(form_name[f], cat("value written through operator() found at container slot ", o.readback[k], ", reference ", ref));
                     reported = true;
                 }
             }
         }
-        if (o.off[f].size() != ix.n) { c.fail(cat(form_name[f], ": observed ", o.off[f].size(), " of ", ix.n, " indices")); }
+        if (o.off[f].size() != ix.n) { c.fail_o(form_name[f], cat("observed ", o.off[f].size(), " of ", ix.n, " indices")); }
     }
-    if (o.has_stride) { c.eq("stride(r) for all r", show(std::vector<ll>(o.stride, o.stride + R)), show(x.strides)); }
-    c.eq("is_unique() && is_always_unique()", o.is_unique, 1);
-    c.eq("is_exhaustive() && is_always_exhaustive()", o.is_exhaustive, 1);
-    c.eq("is_strided() && is_always_strided()", o.is_strided, 1);
+    if (o.has_stride) { c.eq_o("stride(r)", show(std::vector<ll>(o.stride, o.stride + R)), show(x.strides)); }
+    c.eq_o("is_unique()", o.is_unique, 1);
+    c.eq_o("is_exhaustive()", o.is_exhaustive, 1);
+    c.eq_o("is_strided()", o.is_strided, 1);
     c.r.outcome(mc::hash_str(cat(show(x.ext), show(x.strides), show(o.off[0]))));
 }
 
@@ -478,7 +476,8 @@ void run_ma_case(Ctx& c, TypeInfo const& ti, MaFns const& f, std::size_t maxSpan
         auto const e         = full_extents(st, dv);
         auto const ix        = make_indices(e);
         bool const has_zero  = std::find(e.begin(), e.end(), 0) != e.end();
-        std::string const zc = cat(pc, has_zero ? "+zero_extent" : "");
+        std::string const zc = ti.rank == 0 ? "rank0" : (has_zero ? "zero_extent" : "general");
+        c.ocls               = zc;
         ll const prod        = product(e);
         if (static_cast<ull>(prod) > lim.index_max || static_cast<ull>(prod) > lim.other_max) {
             ++c.skipped;
@@ -486,6 +485,7 @@ void run_ma_case(Ctx& c, TypeInfo const& ti, MaFns const& f, std::size_t maxSpan
         }
         for (int side = 0; side < 2; ++side) {
             Expect x{e, side == 0 ? strides_right(e) : strides_left(e), prod, fixed_size ? static_cast<ll>(maxSpan) : prod};
+            c.base = cat("mdarray<", lname[side], ">");
             for (int k = 0; k < 9; ++k) {
                 if (f.f[side][k] == nullptr) { continue; }
                 std::string const cls = k <= 1 ? cat(k == 1 ? "n_eq_rank" : "n_eq_rank_dynamic", "+", pc) : zc;
@@ -496,8 +496,7 @@ void run_ma_case(Ctx& c, TypeInfo const& ti, MaFns const& f, std::size_t maxSpan
                 if (t == mc::Trap::none) {
                     verify_ma(c, o, ix, x, ti);
                 } else {
-                    c.kase += cat(" [during ", o.phase, "]");
-                    c.trap(t);
+                    c.trap_o(t, o.phase);
                 }
                 if (g_oob != 0) { c.c02(cat(g_oob, " out-of-range operator[] calls on the container")); }
                 c.san_check();
